@@ -124,7 +124,7 @@ func TestC01(t *testing.T) {
 		"oracle: independent evaluator (own environment, fresh operator per node, deep-copied inputs, positional binding) sharing gonnx's operator kernels but none of model.go; integer/bool results compared exactly, float results up to rounding (1e-5 relative per node: the assembly dot-product kernels round differently depending on operand alignment); discontinuous operators are only applied to values not downstream of such kernels")
 	defer reportKnownFindings("C01")
 
-	check(t, "graphs", 12000, 40000, func(rt *rapid.T) {
+	check(t, "graphs", 12000, 150000, func(rt *rapid.T) {
 		gg := genGraph(rt, ggOpts{maxNodes: 12, allOutputs: true})
 		mp := gg.model(rt)
 		feed := gg.feed(rt, gg.batchN)
